@@ -185,7 +185,7 @@ CHECKS["C16"] = dict(
         "other forms are reported as not decided); (ADIV) from_assertion builds x^k - g^(k*first_step) with k = get_num_steps, g the generator of "
         "the trace domain, the constant 1 only behind first_step == 0, and no exemption points; (NSTEPS) get_num_steps returns 1 / n/stride / "
         "the number of values for single / periodic / sequence assertions, whatever the order and spelling of its tests; (EVAL) the divisor's "
-        "evaluate_at depends on the degree and constant of every numerator term, on every exemption point and on x; (OVERLAP) prepare_assertions compares a new assertion with the whole accepted set; (KIND) a one-value sequence is stored as a single-step assertion; (GROUPKEY) the divisor group of an assertion is chosen by its stride and its first step. NOT decided: the zero sets "
+        "evaluate_at depends on the degree and constant of every numerator term, on every exemption point and on x; (OVERLAP) prepare_assertions compares a new assertion with the whole accepted set; (KIND) a one-value sequence is stored as a single-step assertion; (GROUPKEY) the divisor group of an assertion is chosen by its stride and its first step: both take part in the choice, a computed map key is injective on a model of all assertion kinds, and in a run-detection form a change of either value creates a new group before the assertion is added. NOT decided: the zero sets "
         "as such, the interpolated value polynomials and their domain shift, the overlap predicate, the bounds on the number of exemptions, "
         "refusal of ill-formed assertions.",
    design_ref="DESIGN.md §4 (C16), §9.8")
